@@ -7,9 +7,14 @@ package main
 import (
 	"bytes"
 	"context"
+	"errors"
 	"fmt"
+	"github.com/tsuna/gohbase/zk"
 	"io"
+	"net"
 	"os"
+	"os/exec"
+	"path/filepath"
 	"runtime"
 	"sort"
 	"strings"
@@ -105,7 +110,7 @@ func (c *simCluster) connInfo() string {
 
 // seqScenario: one request at a time; cluster events between requests; back-off is virtual.
 func seqScenario(rng *RNG, model string) string {
-	gohbase.VerifSetSleepOverride(fastBackoff)
+	setSleepOverride(fastBackoff)
 	c := buildCluster(rng)
 	sc := newSimClient(c)
 	defer sc.cl.Close()
@@ -276,7 +281,7 @@ func seqScenario(rng *RNG, model string) string {
 // goroutines at once (and the connection factory takes a moment, as a real dial set-up does);
 // then more regions of the same server are discovered. The server must have been dialled once.
 func firstUseScenario(rng *RNG) string {
-	gohbase.VerifSetSleepOverride(fastBackoff)
+	setSleepOverride(fastBackoff)
 	c := newSimCluster()
 	c.slowNew = time.Duration(200+rng.Intn(1500)) * time.Microsecond
 	n := 2 + rng.Intn(8)
@@ -326,7 +331,7 @@ func init() { excClass["FATALMARK"] = "org.apache.hadoop.hbase.DoNotRetryIOExcep
 // concScenario (C09): G callers and a fault injector run concurrently; then the cluster is left
 // alone and everything must complete and become available again.
 func concScenario(rng *RNG) string {
-	gohbase.VerifSetSleepOverride(fastBackoff)
+	setSleepOverride(fastBackoff)
 	c := buildCluster(rng)
 	sc := newSimClient(c)
 	defer sc.cl.Close()
@@ -459,8 +464,8 @@ func concScenario(rng *RNG) string {
 // before the death, arrives and B becomes available on the dead connection. Requests on B must
 // still get through (the client has to notice and re-establish B).
 func probeAfterDeath() string {
-	gohbase.VerifSetSleepOverride(fastBackoff)
-	defer gohbase.VerifSetSleepOverride(nil)
+	setSleepOverride(fastBackoff)
+	defer setSleepOverride(nil)
 	c := newSimCluster()
 	c.probeHold = map[string]chan struct{}{}
 	c.addRegion(nil, []byte("t"), nil, []byte("m"), "rs1:1")
@@ -601,8 +606,93 @@ func apiCall(sc *simClient, api string, ctx context.Context) string {
 	return "?"
 }
 
+// sleepFnScenario: the retry back-off sleep itself (sleepAndIncreaseBackoff, shared by SendRPC,
+// SendBatch, the lookups and the establisher) with a back-off that has grown to seconds: the
+// context ends 30 ms into the sleep.
+func sleepFnScenario(mode string) string {
+	setSleepOverride(nil)
+	ctx, cancel := context.WithCancel(context.Background())
+	switch mode {
+	case "deadline":
+		ctx, cancel = context.WithTimeout(context.Background(), 30*time.Millisecond)
+	case "cancelwd":
+		ctx, cancel = context.WithTimeout(context.Background(), time.Hour)
+	}
+	defer cancel()
+	resCh := make(chan error, 1)
+	go func() {
+		_, err := gohbase.VerifSleepAndIncreaseBackoff(ctx, 8*time.Second)
+		resCh <- err
+	}()
+	time.Sleep(30 * time.Millisecond)
+	t0 := time.Now()
+	if mode != "deadline" {
+		cancel()
+	}
+	select {
+	case err := <-resCh:
+		res := "ctx"
+		if err == nil {
+			res = "ok"
+		} else if !errors.Is(err, context.Canceled) && !errors.Is(err, context.DeadlineExceeded) {
+			res = "other"
+		}
+		return fmt.Sprintf("c13 wait backoff-sleep sleepfn %s %d %s", mode, time.Since(t0).Microseconds(), res)
+	case <-time.After(2 * time.Second):
+		return fmt.Sprintf("c13 wait backoff-sleep sleepfn %s 2000000 blocked", mode)
+	}
+}
+
+// raceRun runs the C09 scenarios in the -race build of this harness and summarises the detector's
+// reports.
+func raceRun(bin, tier string, seed uint64) string {
+	dir, err := os.MkdirTemp("", "verif-race")
+	if err != nil {
+		return "c09 race skipped=no-tempdir"
+	}
+	defer os.RemoveAll(dir)
+	cmd := exec.Command(bin, "C09", tier, fmt.Sprint(seed))
+	cmd.Env = append(os.Environ(), "VERIF_RACE_CHILD=1", "VERIF_GUARDED=1",
+		"GORACE=log_path="+filepath.Join(dir, "r")+" halt_on_error=0 exitcode=0")
+	outb, err := cmd.Output()
+	lines := 0
+	crashed := 0
+	for _, l := range strings.Split(string(outb), "\n") {
+		if l != "" {
+			lines++
+		}
+		if strings.Contains(l, " crash ") {
+			crashed++
+		}
+	}
+	if err != nil || lines == 0 {
+		return fmt.Sprintf("c09 race skipped=run-failed lines=%d", lines)
+	}
+	files, _ := filepath.Glob(filepath.Join(dir, "r.*"))
+	reports := 0
+	at := "-"
+	for _, f := range files {
+		b, _ := os.ReadFile(f)
+		txt := string(b)
+		reports += strings.Count(txt, "WARNING: DATA RACE")
+		if at == "-" {
+			for _, l := range strings.Split(txt, "\n") {
+				l = strings.TrimSpace(l)
+				if strings.HasPrefix(l, "github.com/tsuna/gohbase") && strings.HasSuffix(l, ")") {
+					at = l[:strings.IndexByte(l, '(')+1] + "…)"
+					if i := strings.LastIndex(l, "gohbase"); i >= 0 {
+						at = strings.ReplaceAll(l[i:], " ", "_")
+					}
+					break
+				}
+			}
+		}
+	}
+	return fmt.Sprintf("c09 race scenarios=%d crashed=%d reports=%d at=%s", lines, crashed, reports, at)
+}
+
 func waitScenario(state waitState, api, mode string) string {
-	gohbase.VerifSetSleepOverride(nil)
+	setSleepOverride(nil)
 	rng := NewRNG(1, "c13")
 	c := buildCluster(rng)
 	state.setup(c)
@@ -611,6 +701,9 @@ func waitScenario(state waitState, api, mode string) string {
 	ctx, cancel := context.WithCancel(context.Background())
 	if mode == "deadline" {
 		ctx, cancel = context.WithTimeout(context.Background(), 40*time.Millisecond)
+	} else if mode == "cancelwd" {
+		// cancelled explicitly although it also carries a (far) deadline
+		ctx, cancel = context.WithTimeout(context.Background(), time.Hour)
 	}
 	defer cancel()
 	resCh := make(chan string, 1)
@@ -622,7 +715,7 @@ func waitScenario(state waitState, api, mode string) string {
 	case <-time.After(40 * time.Millisecond):
 	}
 	t0 := time.Now()
-	if mode == "cancel" {
+	if mode == "cancel" || mode == "cancelwd" {
 		cancel()
 	}
 	res := early
@@ -646,7 +739,7 @@ func waitScenario(state waitState, api, mode string) string {
 // second Next is blocked or between two Next calls; Next must return the context error promptly
 // (and not wait for the server while releasing the region scanner).
 func scanOpenScenario(between bool) string {
-	gohbase.VerifSetSleepOverride(nil)
+	setSleepOverride(nil)
 	c := buildCluster(NewRNG(3, "c13scan"))
 	c.scanRows = true
 	sc := newSimClient(c, gohbase.RegionLookupTimeout(time.Second))
@@ -745,7 +838,7 @@ func busyQueueScenario(mode string) string {
 // batchOwnCtx: a batch under a background context; one call's own context ends while its server
 // is silent, the other call is answered: the batch must return with that call marked failed.
 func batchOwnCtx() string {
-	gohbase.VerifSetSleepOverride(nil)
+	setSleepOverride(nil)
 	c := newSimCluster()
 	c.addRegion(nil, []byte("t"), nil, []byte("m"), "rs1:1")
 	c.addRegion(nil, []byte("t"), []byte("m"), nil, "rs2:1")
@@ -788,7 +881,7 @@ func closeScenario(state *waitState) string {
 }
 
 func closeScenarioAfter(state *waitState, wait time.Duration) string {
-	gohbase.VerifSetSleepOverride(nil)
+	setSleepOverride(nil)
 	rng := NewRNG(2, "c19")
 	c := buildCluster(rng)
 	sc := newSimClient(c, gohbase.RegionLookupTimeout(time.Second))
@@ -888,6 +981,9 @@ func closeScenarioAfter(state *waitState, wait time.Duration) string {
 		// the fake environment itself parks goroutines forever in these states
 		gor = 0
 	}
+	if gor < 0 {
+		gor = 0 // goroutines of an earlier scenario of this process have ended meanwhile
+	}
 	avail := 0
 	for _, ok := range sc.v.VerifAvailability() {
 		if ok {
@@ -903,8 +999,8 @@ func closeScenarioAfter(state *waitState, wait time.Duration) string {
 // the location cache by its split daughters on other servers; the connection to the old server
 // has no region left but is still the client's to close.
 func closeAfterReplacedRegion() string {
-	gohbase.VerifSetSleepOverride(fastBackoff)
-	defer gohbase.VerifSetSleepOverride(nil)
+	setSleepOverride(fastBackoff)
+	defer setSleepOverride(nil)
 	c := newSimCluster()
 	old := c.addRegion(nil, []byte("u"), nil, nil, "rs9:1")
 	sc := newSimClient(c)
@@ -941,6 +1037,95 @@ func closeAfterReplacedRegion() string {
 	}
 	return fmt.Sprintf("c19 close after-only-region-replaced %d %s 0 %s 0 open=%d late=0 gor=0 second=ok cachesize=%d",
 		closeLat.Microseconds(), inflight, later, open, sc.v.ConnCacheSize())
+}
+
+// setSleepOverride installs the retry-sleep replacement. The hook is a plain package variable (the
+// project's own test seam), so changing it while goroutines of an earlier scenario are still
+// running is a data race of the harness's making: it is written only when the value changes
+// between "set" and "unset", and never in the race-detector run, where it is set once.
+var sleepOverrideSet, sleepOverrideInit bool
+
+func setSleepOverride(f func(ctx context.Context, backoff time.Duration) (time.Duration, error)) {
+	if os.Getenv("VERIF_RACE_CHILD") != "" {
+		if !sleepOverrideInit {
+			sleepOverrideInit = true
+			gohbase.VerifSetSleepOverride(fastBackoff)
+		}
+		return
+	}
+	if want := f != nil; want != sleepOverrideSet || !sleepOverrideInit {
+		sleepOverrideInit, sleepOverrideSet = true, want
+		gohbase.VerifSetSleepOverride(f)
+	}
+}
+
+type zkFixed string
+
+func (z zkFixed) LocateResource(zk.ResourceName) (string, error) { return string(z), nil }
+
+// closeDuringDialReal: a real region client (region.NewClient over a custom dialer) is being
+// dialled for hbase:meta when Close is called; the dial completes just afterwards. The connection
+// the dialer handed out has to be closed.
+func closeDuringDialReal() string {
+	setSleepOverride(nil)
+	started := make(chan struct{}, 8)
+	release := make(chan struct{})
+	var mu sync.Mutex
+	var conns []*VConn
+	dialer := func(ctx context.Context, network, addr string) (net.Conn, error) {
+		started <- struct{}{}
+		<-release
+		v := newVConn()
+		mu.Lock()
+		conns = append(conns, v)
+		mu.Unlock()
+		return v, nil
+	}
+	v := gohbase.VerifNewClient(zkFixed("rs1:1"), false, nil, gohbase.RegionDialer(dialer), gohbase.Logger(discardLogger))
+	cl := v.Client()
+	res := make(chan string, 1)
+	go func() {
+		ctx, cancel := context.WithTimeout(context.Background(), 5*time.Second)
+		defer cancel()
+		g, _ := hrpc.NewGet(ctx, []byte("t"), []byte("k"))
+		_, err := cl.Get(g)
+		res <- classOf(err)
+	}()
+	select {
+	case <-started:
+	case <-time.After(3 * time.Second):
+		return "c19 close dial-in-flight-real 0 setup-failed 0 clientclosed 0 open=0 late=0 gor=0 second=ok"
+	}
+	t0 := time.Now()
+	cl.Close()
+	closeLat := time.Since(t0)
+	close(release)
+	inflight, lat := "blocked", time.Duration(0)
+	select {
+	case inflight = <-res:
+		lat = time.Since(t0)
+	case <-time.After(2 * time.Second):
+		lat = 2 * time.Second
+	}
+	deadline := time.Now().Add(time.Second)
+	open := 0
+	for {
+		mu.Lock()
+		open = 0
+		for _, c := range conns {
+			if !c.Closed() {
+				open++
+			}
+		}
+		n := len(conns)
+		mu.Unlock()
+		if (n > 0 && open == 0) || time.Now().After(deadline) {
+			break
+		}
+		time.Sleep(5 * time.Millisecond)
+	}
+	return fmt.Sprintf("c19 close dial-in-flight-real %d %s %d clientclosed 0 open=%d late=0 gor=0 second=ok",
+		closeLat.Microseconds(), inflight, lat.Microseconds(), open)
 }
 
 func init() {
@@ -988,6 +1173,9 @@ func init() {
 			for i := shard; i < 4*n; i += nsh {
 				emit(ccScenario(NewRNG(seed, fmt.Sprintf("cc-%d", i))))
 			}
+			for i := shard; i < 16; i += nsh {
+				emit(ccConcurrent(NewRNG(seed, fmt.Sprintf("ccc-%d", i))))
+			}
 		})
 	}
 	props["C09"] = func(tier string, seed uint64, out *Out) {
@@ -995,29 +1183,50 @@ func init() {
 		if tier != "quick" {
 			n = 800
 		}
+		raceChild := os.Getenv("VERIF_RACE_CHILD") != ""
+		if raceChild {
+			n = n / 3 // the race detector slows everything down several times
+		}
 		runSharded("C09", tier, seed, out, 8, func(shard, nsh int, emit func(string)) {
 			for i := shard; i < n; i += nsh {
 				emit(concScenario(NewRNG(seed, fmt.Sprintf("c09-%d", i))))
 			}
-			if shard == 0 {
+			if shard == 0 && !raceChild {
 				emit(probeAfterDeath())
 			}
-			for i := shard; i < 20*n; i += nsh {
-				emit(riScenario(NewRNG(seed, fmt.Sprintf("ri-%d", i))))
+			if !raceChild {
+				for i := shard; i < 20*n; i += nsh {
+					emit(riScenario(NewRNG(seed, fmt.Sprintf("ri-%d", i))))
+				}
+			}
+			for i := shard; i < 16; i += nsh {
+				emit(ccConcurrent(NewRNG(seed, fmt.Sprintf("ccc9-%d", i))))
+			}
+			for i := shard; i < 16; i += nsh {
+				emit(riConcurrent(NewRNG(seed, fmt.Sprintf("ric-%d", i))))
 			}
 		})
+		// the same concurrent scenarios once more under Go's race detector (a second harness binary
+		// built with -race by ./check): every report is a race on shared state
+		if bin := os.Getenv("VERIF_RACE_BIN"); bin != "" && os.Getenv("VERIF_SHARD") == "" && !raceChild {
+			out.Line("%s", raceRun(bin, tier, seed))
+		}
 	}
 	props["C13"] = func(tier string, seed uint64, out *Out) {
 		var jobs []func() string
 		for _, st := range waitStates {
 			for _, api := range []string{"get", "batch", "scan"} {
-				for _, mode := range []string{"cancel", "deadline"} {
+				for _, mode := range []string{"cancel", "deadline", "cancelwd"} {
 					st, api, mode := st, api, mode
 					jobs = append(jobs, func() string { return waitScenario(st, api, mode) })
 				}
 			}
 		}
 		jobs = append(jobs, batchOwnCtx)
+		for _, mode := range []string{"cancel", "deadline", "cancelwd"} {
+			mode := mode
+			jobs = append(jobs, func() string { return sleepFnScenario(mode) })
+		}
 		jobs = append(jobs, func() string { return scanOpenScenario(false) }, func() string { return scanOpenScenario(true) })
 		jobs = append(jobs, func() string { return busyQueueScenario("cancel") }, func() string { return busyQueueScenario("deadline") })
 		runSharded("C13", tier, seed, out, 8, func(shard, nsh int, emit func(string)) {
@@ -1030,6 +1239,7 @@ func init() {
 		var jobs []func() string
 		jobs = append(jobs, func() string { return closeScenario(nil) })
 		jobs = append(jobs, closeAfterReplacedRegion)
+		jobs = append(jobs, closeDuringDialReal)
 		for _, st := range append(append([]waitState{}, waitStates...), closeOnlyStates...) {
 			st := st
 			jobs = append(jobs, func() string { return closeScenario(&st) })
